@@ -24,9 +24,42 @@ MOD = 'harness.props.c17'
 METRIC_CODE = {'mse': 1, 'brier': 2, 'accuracy': 3, 'logloss': 4, 'auc': 5, 'rmse': 6, 'mae': 7, 'f1': 8}
 
 
+def cat_layout(p):
+    """numerical columns first, then one one-hot group per entry of p['cat']"""
+    import torch
+    dn = p['d'] - sum(p['cat'])
+    idx, s = [], dn
+    for L in p['cat']:
+        idx.append(torch.arange(s, s + L))
+        s += L
+    return dn, idx
+
+
+def data_for(p, dseed, n, task, noise=0.1):
+    """xc.make_data; with p['cat'] the trailing column groups are replaced by the one-hot code of their arg-max"""
+    import torch
+    data = xc.make_data(dseed, n, p['d'], task, noise=noise)
+    if p.get('cat'):
+        _, idx = cat_layout(p)
+        for key in ('X', 'Xv', 'Xt'):
+            X = data[key].clone()
+            for ii in idx:
+                X[:, ii] = torch.nn.functional.one_hot(data[key][:, ii].argmax(dim=1), num_classes=len(ii)).to(X.dtype)
+            data[key] = X.contiguous()
+    return data
+
+
 def build(p, seed):
+    import torch
     from xrfm import xRFM
-    kw = dict(rfm_params=xc.rfm_params(p['kernel'], diag=p['diag'], iters=p['iters'], bandwidth_mode=p['bandwidth_mode']),
+    rp = xc.rfm_params(p['kernel'], diag=p['diag'], iters=p['iters'], bandwidth_mode=p['bandwidth_mode'])
+    extra = {}
+    if p.get('cat'):
+        dn, idx = cat_layout(p)
+        rp['model']['fast_categorical'] = True
+        extra['categorical_info'] = {'numerical_indices': torch.arange(dn), 'categorical_indices': idx,
+                                     'categorical_vectors': [torch.eye(len(ii)) for ii in idx]}
+    kw = dict(rfm_params=rp, **extra,
               max_leaf_size=p['max_leaf_size'], device='cpu', verbose=False, random_state=seed, n_trees=p['n_trees'],
               n_tree_iters=p.get('n_tree_iters', 0), number_of_splits=p.get('number_of_splits'),
               split_method=p['split_method'], refill_size=p['refill_size'], tuning_metric=p['tuning_metric'],
@@ -48,6 +81,12 @@ def consume(junk_seed, k_py, k_np, k_torch):
         np.random.rand(k_np)
     if k_torch:
         torch.rand(k_torch)
+    if k_py or k_np:
+        # memory that was allocated, written and released earlier in the process (the allocator hands it out again)
+        for dt in (torch.float32, torch.float64):
+            scratch = [torch.full((m, m), float('nan'), dtype=dt) for m in range(2, 24) for _ in range(40)]
+            scratch += [torch.full((m,), float('nan'), dtype=dt) for m in (8, 64, 512, 4096) for _ in range(40)]
+            del scratch
 
 
 def rng_states():
@@ -123,7 +162,7 @@ def execute(chunk):
         for p in chunk['cases']:
             res = {'family': p['family'], 'params': p, 'disagreements': [], 'failures': [], 'dist': {}}
             is_class = p['task'] in ('bin', 'multi')
-            data = xc.make_data(p['dseed'], p['n'], p['d'], p['task'], noise=p.get('noise', 0.1))
+            data = data_for(p, p['dseed'], p['n'], p['task'], noise=p.get('noise', 0.1))
             threads = torch.get_num_threads()
             info = {}
             if p['family'] == 'seed-after-consumption':
@@ -197,7 +236,7 @@ def execute(chunk):
                     m = build(p, p['seed'])
                     temps = []
                     for h in hist:
-                        dh = xc.make_data(h['dseed'], h['n'], p['d'], p['task'], noise=h.get('noise', 0.1))
+                        dh = data_for(p, h['dseed'], h['n'], p['task'], noise=h.get('noise', 0.1))
                         with quiet():
                             # an earlier fit may have been called with per-call leaf options: they belong to that call only
                             m.fit(dh['X'], dh['y'], dh['Xv'], dh['yv'], **h.get('fit_kw', {}))
@@ -270,6 +309,10 @@ def gen_cases(run):
         # forced splits (number_of_splits): the split counter is per tree and per fit, also when the data would fit one leaf
         dict(split_method='random', task='reg1', n=36, max_leaf_size=40, number_of_splits=2),
         dict(split_method='top_vector_agop_on_subset', task='bin', n=40, max_leaf_size=60, number_of_splits=1, n_trees=2),
+        # mixed numerical / one-hot features on the kernels' categorical path: the feature matrix is assembled block by block
+        dict(split_method='top_vector_agop_on_subset', task='reg1', n=80, kernel='l1', d=10, cat=[3, 4], iters=2, max_leaf_size=40),
+        dict(split_method='pca', task='bin', n=70, kernel='l2', d=8, cat=[2, 3], iters=1, max_leaf_size=40),
+        dict(split_method='random', task='reg2', n=40, kernel='lpq', d=9, cat=[4, 3], iters=2, max_leaf_size=60),
     ]
     reps = 2 if quick else 30
     for rep in range(reps):
@@ -312,6 +355,8 @@ def gen_cases(run):
         # (a smaller leaf moves int(0.2*m) = 0 samples into an empty validation set, which RFM.fit rejects - outside the property)
         dict(split_method='pca', task='reg1', n=36, max_leaf_size=40, number_of_splits=1, tuning=False),
         dict(split_method='random', task='reg2', n=36, max_leaf_size=40, number_of_splits=1, tuning=True, n_tree_iters=1),
+        dict(split_method='top_vector_agop_on_subset', task='reg1', n=80, kernel='l1', d=10, cat=[3, 4], iters=2, max_leaf_size=40,
+             tuning=False),
     ]
     for rep in range(reps):
         for k, cfg in enumerate(hist_cfgs):
